@@ -132,6 +132,19 @@ func (m *Machine) switchTo(from, next *G) {
 	}
 }
 
+// schedOn: schedule exploration is active (everywhere, or - ZoneOnly - only while the
+// harness has set the record "zone" in the first phase; recovery phases then run under the
+// default schedule).
+func (m *Machine) schedOn() bool {
+	if !m.ExploreSched {
+		return false
+	}
+	if m.ZoneOnly {
+		return m.Phase == 0 && m.records["zone"] == 1
+	}
+	return true
+}
+
 func (g *G) runnable() bool { return !g.done && (g.waiting == nil || g.waiting()) }
 
 // schedule is called by a goroutine that cannot continue (blocked or finished).
@@ -169,7 +182,7 @@ func (m *Machine) schedule(from *G) {
 		panic(killed{})
 	}
 	pick := 0
-	if len(cands) > 1 && m.ExploreSched && m.devs < m.MaxDev {
+	if len(cands) > 1 && m.schedOn() && m.devs < m.MaxDev {
 		pick = m.nextDecision(len(cands), func(int) bool { return true })
 		if pick != 0 {
 			m.devs++
@@ -186,7 +199,7 @@ func (m *Machine) preemptPoint() {
 		m.rt.draining = false
 		return
 	}
-	if !m.ExploreSched || m.devs >= m.MaxDev {
+	if !m.schedOn() || m.devs >= m.MaxDev {
 		return
 	}
 	g := m.rt.cur
